@@ -268,9 +268,15 @@ def corr_tokenize(ck):
     bt.add_chunked('b_raw', items_r, cstr)
     bt.add_chunked('b_tok', items_t, cstr)
     n += len(special)
+    # lexeme level: every pair (and triple over a reduced list) of lexical items, unfinished ones included, in a completing context
+    lex = lexeme_texts(ck.tier, small=ck.tier == 'quick')
+    bt.add_chunked('b_raw', [(s, guarded(lambda: _tokenize(s), stokens)) for s in lex], cstr, chunk=60)
+    bt.add_chunked('b_tok', [(s, guarded(lambda: smiles_tokenize(s), stokens)) for s in lex], cstr, chunk=60)
+    n += len(lex)
+    ck.extra['tokenize_lexeme_texts'] = len(lex)
     ck.extra['tokenize_strings'] = n
     ck.sample({'tokenize': 'C(=O)[O-]%12Cl', 'text': guarded(lambda: _tokenize('C(=O)[O-]%12Cl'), stokens)})
-    return bt.run(f'_tokenize and smiles_tokenize == Coq model on all {n} strings of length <= {L} + boundary inputs',
+    return bt.run(f'_tokenize and smiles_tokenize == Coq model on all {n} strings of length <= {L} + boundary inputs + {len(lex)} lexeme pairs / triples',
                   single=cstr)
 
 
@@ -652,6 +658,9 @@ def reader_inputs(ck):
     rx = [gen_reaction(rng) for _ in range(nrx)]
     out += [('reaction', s) for s in rx]
     out += [('reaction-edit', corrupt(rng, s)) for s in rx[: nrx // 2]]
+    out += [('cx-radical', gen_cx_radical(rng)) for _ in range(60 if quick else 800)]
+    lex = lexeme_texts('quick', small=True)
+    out += [('lexemes', s) for s in (rng.sample(lex, 200) if quick else lex)]
     seen, uniq = set(), []
     for k, s in out:
         if s not in seen and all(ord(c) < 256 for c in s):
@@ -1544,6 +1553,169 @@ def chiral_family(rng, n):
     return out
 
 
+# CXSMILES radical marks |^n:i,j,...|: the indices are positions of atoms in the WRITTEN text (for a reaction: reactants, then reagents,
+# then products - simply left to right). Oracle independent of the model and of smiles.py: the harness counts the atom tokens of the text
+# itself, every molecule text is read alone, and the object built from the whole text must carry a radical exactly on the atoms at the
+# written positions (besides atoms the hydrogen recheck radicalized by itself, which it lists in chython_radicalized_atoms); an index
+# beyond the last atom must be rejected with a ValueError. RDKit's CXSMILES reader is asked for a second opinion on the expectation.
+
+CX_RAD_RE = re.compile(r'\^([1-7]):(\d+(?:,\d+)*)')
+RAD_MOLS = ['C', 'CC', 'CO', 'C[CH2]', '[CH3]', '[O]', 'O', 'N', 'CCl', 'ClC', 'C(C)C', '[Na+]', 'Br', 'c1ccccc1', 'C[CH]C', '[OH]', 'CN', 'S', 'C=C', 'C1CC1',
+            '[13CH3]', 'BrCBr', 'C(=O)O', '[NH2]', 'CC(C)(C)C', 'OO', 'Cl', 'C%10CC%10', 'c1ccncc1', 'N#C']
+
+
+def written_atoms(smi):
+    """the atom tokens of a molecule / reaction text in the order they are written"""
+    return [t for t in TOKEN_RE.findall(smi) if t[0] == '[' or t[0].isalpha()]
+
+
+def gen_cx_radical(rng):
+    """molecules and reactions (reagents present in most) with a CXSMILES radical block: 1-3 groups, indices anywhere in the text,
+    sometimes beyond the last atom"""
+    def side(lo):
+        return '.'.join(rng.choice(RAD_MOLS) for _ in range(rng.randint(lo, 3)))
+    if rng.random() < 0.25:
+        smi = side(1)
+    else:
+        smi = side(0) + '>' + (side(1) if rng.random() < 0.7 else '') + '>' + side(0)
+    n = len(written_atoms(smi))
+    k = rng.randint(1, 4)
+    idx = rng.sample(range(n), min(k, n)) if n else []
+    if rng.random() < 0.1 or not idx:
+        idx.append(n + rng.randint(0, 3))
+    groups, i = [], 0
+    while i < len(idx):
+        j = i + rng.randint(1, 2)
+        groups.append('^' + str(rng.randint(1, 7)) + ':' + ','.join(str(x) for x in idx[i:j]))
+        i = j
+    return smi + ' |' + ','.join(groups) + '|'
+
+
+def rdkit_radicals(s, reaction):
+    """RDKit's reading of the CXSMILES text: set of (role, molecule, atom) carrying radical electrons, or None"""
+    from rdkit import Chem
+    from rdkit.Chem import rdChemReactions
+    try:
+        if reaction:
+            r = rdChemReactions.ReactionFromSmiles(s)
+            if r is None:
+                return None
+            groups = (r.GetReactants(), r.GetAgents(), r.GetProducts())
+            return {(k, i, a.GetIdx()) for k, ms in enumerate(groups) for i, m in enumerate(ms) for a in m.GetAtoms() if a.GetNumRadicalElectrons()}
+        m = Chem.MolFromSmiles(s, sanitize=False)
+        if m is None:
+            return None
+        return {(0, 0, a.GetIdx()) for a in m.GetAtoms() if a.GetNumRadicalElectrons()}
+    except Exception:  # noqa
+        return None
+
+
+def cx_radical_oracle(ck, s):
+    from chython.containers import MoleculeContainer, ReactionContainer
+    parts = s.split()
+    if len(parts) != 2 or not (parts[1].startswith('|') and parts[1].endswith('|')) or 'f:' in parts[1]:
+        return False
+    marks = [int(x) for m in CX_RAD_RE.finditer(parts[1]) for x in m.group(2).split(',')]
+    smi = parts[0]
+    if not marks or len(set(marks)) != len(marks) or smi.count('>') not in (0, 2):
+        return False
+    reaction = '>' in smi
+    roles = [[x for x in part.split('.') if x] for part in smi.split('>')] if reaction else [[smi]]      # reactants, reagents, products
+    if not any(roles):
+        return False
+    flat = []                                                          # written position -> (role, molecule, atom)
+    for r, ps in enumerate(roles):
+        for i, piece in enumerate(ps):
+            m, e = classify(piece)
+            if not isinstance(m, MoleculeContainer) or len(m._atoms) != len(written_atoms(piece)):
+                return False
+            flat += [(r, i, j) for j in range(len(m._atoms))]
+    res, e = classify(s)
+    if e is not None and not isinstance(e, ValueError):
+        report_crash(ck, s, {}, e)
+        return True
+    ck.case(('cx-radical', s), nontrivial=reaction and bool(roles[1]))
+    if max(marks) >= len(flat):
+        ck.count('cx-radical-oracle:index beyond the atoms')
+        if e is None:
+            ck.counterexample(f'cx-radical-range:{s}', 'a CXSMILES radical index beyond the last atom of the text is accepted', {'smiles': s, 'atoms': len(flat)},
+                              str(res), 'IncorrectSmiles', 'atom tokens counted by the harness',
+                              replay_py=f"from chython import smiles\nprint(smiles({s!r}))")
+        return True
+    want = {flat[x] for x in marks}
+    rd = rdkit_radicals(s, reaction)
+    if rd is not None and not want <= rd:
+        ck.count('cx-radical-oracle:RDKit places the marks elsewhere (not compared)')
+        return False
+    ck.count('cx-radical-oracle:compared' + (' (reaction with reagents)' if reaction and roles[1] else ''))
+    if res is None:
+        got = f'{type(e).__name__}: {e}'
+        ok = False
+    else:
+        built = [list(res.reactants), list(res.reagents), list(res.products)] if isinstance(res, ReactionContainer) else [[res]]
+        if [len(b) for b in built] != [len(r) for r in roles]:
+            return False                                               # the reaction oracle's subject
+        have, guessed = set(), set()
+        for r, ms in enumerate(built):
+            for i, m in enumerate(ms):
+                rz = set((m.meta or {}).get('chython_radicalized_atoms') or ())
+                for j, (n, a) in enumerate(m._atoms.items()):
+                    if a.is_radical:
+                        have.add((r, i, j))
+                        if n in rz:
+                            guessed.add((r, i, j))
+        got = sorted(have)
+        ok = want <= have and have - want <= guessed
+    if not ok:
+        names = ('reactants', 'reagents', 'products')
+        ck.counterexample(f'cx-radical-position:{s}', 'CXSMILES radical marks do not land on the atoms at the written positions',
+                          {'smiles': s, 'indices': marks}, got if isinstance(got, str) else [(names[r], i, j) for r, i, j in got],
+                          [(names[r], i, j) for r, i, j in sorted(want)],
+                          'atom positions counted in the written text by the harness (reactants, reagents, products = left to right)' +
+                          ('; RDKit agrees' if rd is not None else ''),
+                          replay_py=f"from chython import smiles\nr = smiles({s!r})\nms = list(r.molecules()) if hasattr(r, 'molecules') else [r]\n"
+                                    f"print([[a.is_radical for _, a in m.atoms()] for m in ms])")
+    return True
+
+
+# lexeme level: every short sequence of lexical items of the language (complete AND unfinished ones: '%', '%1', '[', a bond symbol ...) in a
+# context that completes it. The character sweeps end after 3 characters and never put, e.g., a whole bracket atom behind an unfinished
+# '%'-closure; here every ordered pair / triple of tokenizer states is followed by every kind of next item.
+
+LEXEMES = ['C', 'c', 'N', 'Cl', 'Br', '[CH3]', '[nH]', '[C@@H]', '[O-]', '[', ']', '(', ')', '=', '#', ':', '-', '/', '\\', '.', '1', '2', '0', '%', '%1', '%12', '%0',
+           '>', '~', '!', ';', '@', ',', '$', '*', 'H', '+', ' ', '&']
+LEXEMES_SMALL = ['C', '[CH3]', '[', ']', '(', ')', '=', '.', '1', '%', '%1', '%12', 'c', 'Cl', '/', '-', ';', '@']
+
+
+def lexeme_texts(tier, small=False):
+    """small: the part that also goes through the Coq models in the quick tier"""
+    out = []
+    ctx = [('C', 'C')] if small else [(p, q) for p in ('', 'C') for q in ('', 'C', '1', 'C1')]
+    for a in LEXEMES:
+        for b in LEXEMES:
+            out += [p + a + b + q for p, q in ctx]
+    lex3 = LEXEMES_SMALL[:12] if small else LEXEMES_SMALL if tier == 'quick' else LEXEMES
+    for t in itertools.product(lex3, repeat=3):
+        out += ['C' + ''.join(t) + q for q in (('C',) if small else ('', 'C'))]
+    seen = set()
+    return [s for s in out if not (s in seen or seen.add(s))]
+
+
+LANG_RE = re.compile(r'(?:\[[^\[\]]*\]|Cl|Br|[BCNOPSFI]|[cnopsb]|[-=#:/\\~]|[()]|\.|%[0-9][0-9]|[0-9])*')
+
+
+def lexical_oracle(ck, s, mol):
+    """an ACCEPTED molecule text (nothing logged) must be a sequence of lexical items of the language: bracket atom, organic / aromatic symbol,
+    bond symbol, branch bracket, dot, ring-closure digit or '%' followed by exactly two digits"""
+    if mol.meta and mol.meta.get('chython_parsing_log'):
+        return
+    if not LANG_RE.fullmatch(s):
+        rest = s[LANG_RE.match(s).end():]
+        ck.counterexample(f'accepted-outside-language:lexeme:{s}', 'a text that is not a sequence of lexical items of the SMILES language is accepted',
+                          {'smiles': s, 'first_unreadable_at': rest[:10]}, str(mol), 'IncorrectSmiles', 'lexical grammar of the harness',
+                          replay_py=f"from chython import smiles\nprint(smiles({s!r}))")
+
+
 def directed_search(ck, seeds):
     """when a correspondence disagrees: the property-level oracles on and around the disagreeing texts"""
     rng = random.Random(f'{ck.seed}:c03directed')
@@ -1560,6 +1732,13 @@ def directed_search(ck, seeds):
         rdkit_compare(ck, s.split()[0] if s.split() else s, 'directed')
         if 'f:' in s:
             cx_reaction_oracle(ck, s)
+        if '^' in s:
+            cx_radical_oracle(ck, s)
+            for _ in range(6):          # the same text with marks on other atoms
+                t = s.split()[0]
+                n = len(written_atoms(t))
+                if n:
+                    cx_radical_oracle(ck, t + ' |^1:' + ','.join(str(x) for x in sorted(rng.sample(range(n), min(n, rng.randint(1, 3))))) + '|')
         if s.count('>') == 2:
             reaction_oracle(ck, s.split()[0] if s.split() else s)
         elif '[' in s and ' ' not in s:
@@ -1596,6 +1775,9 @@ def search(ck):
     fields = [''.join(t) for L in (1, 2, 3) for t in itertools.product('+-1234', repeat=L)] + ['++++', '----', '+++++', '+-+-', '-+-+']
     stream += [f'[{el}{f}]' for el in ('C', 'NH3', 'Fe') for f in fields if f[0] in '+-']
     stream += ['CC(=O)[O-+]', 'c1cc[n+-]cc1', '[OH-+]>>[OH2]', 'C[N+-](C)C', '[13CH3-+:1]', '[O-+]']
+    lex = lexeme_texts(ck.tier)
+    stream += lex
+    ck.extra['lexeme_texts'] = len(lex)
     from chython.containers import MoleculeContainer
     n_exc = {}
     for s in stream:
@@ -1608,6 +1790,8 @@ def search(ck):
                 report_crash(ck, s, kw, e)
             if e is None and not kw and isinstance(res, MoleculeContainer) and '[' in s and ' ' not in s:
                 bracket_oracle(ck, s, res)
+            if e is None and not kw and isinstance(res, MoleculeContainer) and ' ' not in s:
+                lexical_oracle(ck, s, res)
             if e is None and any(ord(c) > 127 for c in s.split()[0]):
                 ck.counterexample(f'accepted-outside-language:{s}', 'a text with non-ASCII characters in the SMILES part is accepted', {'smiles': s},
                                   str(res), 'IncorrectSmiles', 'the SMILES alphabet is ASCII', replay_py=f"from chython import smiles\nprint(smiles({s!r}))")
@@ -1672,6 +1856,15 @@ def search(ck):
     for _ in range(400 if quick else 5000):
         n_cx += cx_reaction_oracle(ck, gen_cx_reaction(rng))
     ck.extra['cx_fragment_oracle_compared'] = n_cx
+    # (6) CXSMILES radical marks: positions counted in the written text (reagents between reactants and products), indices out of range
+    n_rad = 0
+    fixed_rad = ['C |^1:0|', 'CC |^1:1|', 'C[CH2] |^1:1|', 'CO>N>CC |^1:4|', 'CO>N>CC |^1:2|', 'CC.OO>CN.Cl>CCO.O |^1:5,9|', 'CC>>CC |^1:3|',
+                 'C>O.N>S |^1:1,^2:2|', '>N>CC |^1:0|', '>N>CC |^1:1|', 'C>N> |^1:1|', 'CO>N>CC |^1:5|', 'CO>N>CC |^1:4,6|', 'C.C |^1:1|', 'C.C |^1:2|']
+    for s in fixed_rad:
+        n_rad += cx_radical_oracle(ck, s)
+    for _ in range(500 if quick else 6000):
+        n_rad += cx_radical_oracle(ck, gen_cx_radical(rng))
+    ck.extra['cx_radical_oracle_compared'] = n_rad
     return True
 
 
@@ -1834,6 +2027,10 @@ def run(ck):
     only = set(only.split(',')) if only else None
     ck.trusted += ['translator tools/gen_tokens.py (Python ast: dict displays, regex pattern texts, character classes)',
                    'translator tools/gen_elements.py (symbols and isotope keys)', 'translator tools/gen_c03skel.py (ast.unparse text of the nine modelled functions)',
+                   'translator tools/gen_c03tok.py + the expression primitives coq/model/TokenizePrims.v (statement-by-statement translation of _tokenize, _atom_parse, smiles_tokenize)',
+                   'translator tools/gen_c03map.py + coq/model/MappingPrims.v (translation of the numbering loops of _mapping.py)',
+                   'translator tools/gen_c03rad.py + coq/model/RadicalPrims.v (translation of the CXSMILES radical loops of smiles())',
+                   'translator tools/gen_c03cx.py + coq/model/ContractPrims.v (translation of the fragment-contraction block of smiles())',
                    'correspondence runner harness/checks/C03.py + harness/coqcases.py', 'CachedMethods shim harness/boot.py',
                    'CPython 3.12.1 (re, str.split, str.isnumeric, int)', 'RDKit 2026.3 (search only)']
     ck.assumptions += ['the models (coq/model/Tokenize.v, Parser.v, Reader.v) are hand-written mirrors of tokenize.py, parser.py, smiles.py:smiles(), '
@@ -1849,7 +2046,7 @@ def run(ck):
     t = time.time()
     proved = True
     if only is None or 'proof' in only:
-        proved = common.standard_proof_steps(ck, translators=['tokens', 'elements', 'c03skel'])
+        proved = common.standard_proof_steps(ck, translators=['tokens', 'elements', 'c03skel', 'c03tok', 'c03map', 'c03rad', 'c03cx'])
     timings['proof'] = round(time.time() - t, 1)
     tied = True
     for name, f in STEPS:
